@@ -295,7 +295,7 @@ def _check_staged(case, ctx):
     ctx.mon("staged.gate")
     uri, body_kind = case["uri"], case["body"]
     body = _payload() if body_kind == "payload" else case.get("junk", b"not a beacon")
-    req = None if uri is None else HttpRequest(method=b"GET", uri=uri.encode("latin-1"), params={}, headers={}, body=b"")
+    req = None if uri is None else HttpRequest(method=case.get("method", b"GET"), uri=uri.encode("latin-1"), params={}, headers={}, body=b"")
     resp = HttpResponse(status=200, headers={}, reason=b"OK", body=body, request=req)
     calls = []
     real = pcap.BeaconConfig.from_bytes
@@ -334,7 +334,7 @@ def _check_staged(case, ctx):
             ctx.violation("staged.result", "wrong configuration returned", case)
             return
         cls = "staged:inspected"
-    ctx.ok(fp=("staged", uri, body_kind), case=case, classes=(cls, f"staged:body={body_kind}"))
+    ctx.ok(fp=("staged", uri, body_kind, case.get("method")), case=case, classes=(cls, f"staged:body={body_kind}", f"staged:verb={case.get('method', b'GET').decode()}"))
 
 
 # ---- generators ---------------------------------------------------------------------------------
@@ -461,7 +461,8 @@ def run_shard(shard, ctx):
             else:
                 uri = "/" + "".join(rng.choice(alnum + "/.") for _ in range(rng.randrange(0, 12)))
             for body in ("payload", "junk"):
-                check_case({"op": "staged", "uri": uri, "body": body, "junk": _rbytes(rng, rng.randrange(0, 64))}, ctx)
+                check_case({"op": "staged", "uri": uri, "body": body, "junk": _rbytes(rng, rng.randrange(0, 64)),
+                            "method": rng.choice([b"GET", b"GET", b"POST", b"HEAD", b"get", b"PUT"])}, ctx)
     else:
         raise ValueError(kind)
 
